@@ -164,6 +164,10 @@ def push_hist(c, d):
     m = re.search(r'--threads (\d+)', inv)
     if m:
         keys.append('threads=' + m.group(1))
+    # do the hypotheses of the refinement theorems hold for (the first invocation of) this case?
+    m = re.search(r' HYP=(\w+)', d)
+    if m:
+        keys.append('refinement-theorem-hypotheses=' + {'1': 'hold', '0': 'do-not-hold', 'na': 'not-applicable'}.get(m.group(1), m.group(1)))
     return keys
 
 
